@@ -960,7 +960,7 @@ class C17(PropBase):
         if case.get("kind") == "priced":
             # the register of a converted run shows the original amount beside the converted total (two commodities per
             # row): judged by C07; here the balance figures against the exact converted sums
-            return self.oracle_balance(case, impl, ex, txns, mn, mx)
+            return self.oracle_balance(case, impl, ex, txns, mn, mx) or self.oracle_register_priced(case, impl, ex, mn, mx)
         return self.oracle_balance(case, impl, ex, txns, mn, mx) or \
             self.oracle_register(case, impl, ex, txns, mn, mx) or \
             self.oracle_balgrp(case, impl, ex, txns, mn, mx)
@@ -1025,6 +1025,39 @@ class C17(PropBase):
                 ctx.prec = 80
                 posts = [("EUR", a, str(decimal.Decimal(v) * r_)) if c == "XAG" else (c, a, v) for c, a, v in posts]
         return self.check_block("balance", srows, sdel, erows, edel, posts, mn, mx)
+
+    def oracle_register_priced(self, case, impl, ex, mn, mx):
+        """the register of a converted run: a converted row reads `account  amount COMM @ rate  total TARGET`.  The two
+        amounts of every row (the posting's own amount and the converted running total) are figures like any other:
+        min..max decimals, the exact figure (the same row at scale 0..28) rounded half away from zero.  The rate is not
+        an amount of the report and is left alone."""
+        sr, er = out_text(impl, "register"), out_text(ex, "register")
+        if sr is None or er is None:
+            return None
+
+        def rows(text):
+            out = []
+            for ln in text.split("\n"):
+                if not ln.startswith(" " * 12) or ln[12:13] in (" ", "#", ";", ""):
+                    continue
+                tok = ln.split()
+                if "@" in tok:
+                    i = tok.index("@")
+                    if i >= 2 and len(tok) >= i + 3:
+                        out.append((tok[0], tok[i - 2], tok[i + 2]))
+                elif len(tok) >= 3:
+                    out.append((tok[0], tok[1], tok[-2] if len(tok) >= 5 else tok[2]))
+            return out
+        se, ee = rows(sr), rows(er)
+        if [r[0] for r in se] != [r[0] for r in ee]:
+            return None
+        for s, e in zip(se, ee):
+            for what, a, b in (("amount", s[1], e[1]), ("total", s[2], e[2])):
+                if is_number(a) and is_number(b):
+                    f = check_figure("register(converted).%s:%s" % (what, s[0]), a, b, mn, mx)
+                    if f:
+                        return f
+        return None
 
     def oracle_register(self, case, impl, ex, txns, mn, mx):
         sr, er = out_text(impl, "register"), out_text(ex, "register")
